@@ -1,1 +1,73 @@
-(* placeholder *)
+(* C13 -- every loader yields exactly the converter its input format denotes.  Inputs are abstract data (ordered
+   dict items, JSON-LD terms); file / URL reading and rdflib's namespace manager are runtime (file-vs-object equality is
+   checked by the run).  Every loader is `Converter(records_of(input))`, so C01-C08 apply to the loaded converter. *)
+From Coq Require Import Permutation.
+From Curies.model Require Import Str PyData Trie Conv Query Val Answer Spec CheckQ Loaders CheckL.
+From Curies.proofs Require Import StrFacts IndexFacts QueryFacts LoaderFacts.
+
+Theorem C13_prefix_map : forall pm, records_of_prefix_map pm = Val (map (fun pu => rec0 (fst pu) (snd pu) [] [] None) pm).
+Proof. exact prefix_map_records. Qed.
+Print Assumptions C13_prefix_map.
+(* each listed pair expands and is recognised on compression *)
+Theorem C13_prefix_map_behaves : forall d pm c p u i, load true d (records_of_prefix_map pm) = Val c -> In (p, u) pm ->
+  expand_pair c p i false false = Val (Some (u ++ i)) /\ is_uri c (u ++ i) = true.
+Proof. exact prefix_map_expand. Qed.
+Print Assumptions C13_prefix_map_behaves.
+
+(* priority map: the first URI prefix canonical, the rest synonyms, entry by entry *)
+Theorem C13_priority : forall pm rs, records_of_priority_map pm = Val rs ->
+  length rs = length pm /\
+  forall n p us, nth_error pm n = Some (p, us) -> exists u rest, us = u :: rest /\ ~ In u rest /\ nth_error rs n = Some (rec0 p u [] rest None).
+Proof. exact priority_map_records. Qed.
+Print Assumptions C13_priority.
+
+(* reverse map: every listed URI prefix registered under its CURIE prefix, a shortest one canonical, nothing invented *)
+Theorem C13_reverse : forall rpm rs, records_of_reverse_map rpm = Val rs ->
+  (forall u p, In (u, p) rpm -> exists r, In r rs /\ r_prefix r = p /\ In u (all_uris r) /\
+                                       (forall u', In u' (all_uris r) -> length (r_uri r) <= length u') /\ r_psyn r = []) /\
+  (forall r u, In r rs -> In u (all_uris r) -> In (u, r_prefix r) rpm).
+Proof. exact reverse_map_records. Qed.
+Print Assumptions C13_reverse.
+
+Theorem C13_epm : forall rs rs', records_of_epm rs = Val rs' ->
+  rs' = rs /\ forall r, In r rs -> ~ In (r_prefix r) (r_psyn r) /\ ~ In (r_uri r) (r_usyn r).
+Proof. exact epm_records. Qed.
+Print Assumptions C13_epm.
+
+(* JSON-LD: string terms and @prefix dictionaries are taken; @-keywords, the empty key and other terms are ignored *)
+Theorem C13_jsonld : forall ctx, records_of_jsonld ctx = Val (map (fun pu => rec0 (fst pu) (snd pu) [] [] None) (jsonld_prefix_map ctx)).
+Proof. exact jsonld_records. Qed.
+Print Assumptions C13_jsonld.
+Theorem C13_jsonld_terms : forall ctx k, NoDup (map fst ctx) ->
+  dget k (jsonld_prefix_map ctx) =
+  match List.find (fun kt => str_eqb k (fst kt)) ctx with
+  | Some (_, TStr s) => if jsonld_key_ok k then Some s else None
+  | Some (_, TPrefix s) => if jsonld_key_ok k then Some s else None
+  | _ => None end.
+Proof. exact jsonld_terms. Qed.
+Print Assumptions C13_jsonld_terms.
+
+(* upgrade_prefix_map: canonical form, always strict, independent of the dictionary order, nothing dropped *)
+Theorem C13_upgrade_canonical : forall pm, NoDup (map fst pm) ->
+  upgrade_prefix_map pm = Val (map (group_rec pm) (sort_uniq (map snd pm))).
+Proof. exact upgrade_canonical. Qed.
+Print Assumptions C13_upgrade_canonical.
+Theorem C13_upgrade_strict : forall d pm, NoDup (map fst pm) -> exists rs c, upgrade_prefix_map pm = Val rs /\ mk_conv true d rs = Val c.
+Proof. exact upgrade_strict. Qed.
+Print Assumptions C13_upgrade_strict.
+Theorem C13_upgrade_order : forall pm pm', NoDup (map fst pm) -> Permutation pm pm' -> upgrade_prefix_map pm' = upgrade_prefix_map pm.
+Proof. exact upgrade_order_independent. Qed.
+Print Assumptions C13_upgrade_order.
+Theorem C13_upgrade_members : forall pm p u, NoDup (map fst pm) -> In (p, u) pm ->
+  let r := group_rec pm u in
+  In r (map (group_rec pm) (sort_uniq (map snd pm))) /\ r_uri r = u /\ r_usyn r = [] /\ In p (all_prefixes r) /\
+  (forall q, In q (all_prefixes r) <-> In (q, u) pm) /\ (forall q, In q (all_prefixes r) -> str_leb (r_prefix r) q = true).
+Proof. exact upgrade_members. Qed.
+Print Assumptions C13_upgrade_members.
+
+Example C13_nonvacuous :
+  (upgrade_prefix_map [([99], [104]); ([97], [105]); ([98], [104])] = Val [rec0 [98] [104] [[99]] [] None; rec0 [97] [105] [] [] None] /\
+   records_of_reverse_map [([104;47;120], [97]); ([104;47], [97]); ([105;47], [98])] =
+     Val [rec0 [97] [104;47] [] [[104;47;120]] None; rec0 [98] [105;47] [] [] None] /\
+   jsonld_prefix_map [([64;118], TStr [120]); ([], TStr [120]); ([97], TStr [104]); ([98], TPrefix [105]); ([99], TOther)] = [([97], [104]); ([98], [105])])%N.
+Proof. vm_compute. auto. Qed.
